@@ -90,6 +90,7 @@ structure Env where
   seqCls : SeqOrigin → ClsId
   mapCls : MapOrigin → ClsId
   metaOf : ClsId → ClsId                   -- type(C)
+  mroNames : ClsId → List NameId := fun _ => []   -- __name__ of every class in C.__mro__ (C itself first)
 
 def Val.typeOf (env : Env) : Val → ClsId
   | .lit l => env.litCls l.kind
@@ -424,16 +425,25 @@ def fieldsRaw (env : Env) (orc : Nat → Val → Raw) : Bool → List NameId →
   | _, _, _, _, _ => .ok true
 end
 
+/-- the string branch of `_check_type` when the name is compared with class names (no class of the context has that name, or
+    - before the repair - always): the names of the whole MRO, or - before the repair - of the class and its first base -/
+def strAnnByName (env : Env) (n : NameId) (v : Val) : Out :=
+  if strBranchComparesMro then (if (env.mroNames (v.typeOf env)).contains n then .accept else .reject)
+  else
+    match env.baseName (v.typeOf env) with
+    | Option.none =>
+        if strBranchGuardsNoneBase then (if env.name (v.typeOf env) == n then .accept else .reject)
+        else .escape                                         -- object().__class__.__base__ is None
+    | some bn => if env.name (v.typeOf env) == n || bn == n then .accept else .reject
+
 /-- `_check_type` -/
 def checkType (env : Env) (orc : Nat → Val → Raw) (a : Ann) (v : Val) : Out :=
   match a with
   | .none => if v.isNone then .accept else .reject             -- `value == type_`
   | .strAnn n =>                                               -- outside the try
-      match env.baseName (v.typeOf env) with
-      | Option.none =>
-          if strBranchGuardsNoneBase then (if env.name (v.typeOf env) == n then .accept else .reject)
-          else .escape                                         -- object().__class__.__base__ is None
-      | some bn => if env.name (v.typeOf env) == n || bn == n then .accept else .reject
+      match (if strBranchResolvesInContext then env.ctx n else Option.none) with
+      | some c => if env.sub (v.typeOf env) c then .accept else .reject      -- the name is a class of the context: isinstance
+      | Option.none => strAnnByName env n v
   | a => wrap (isInstance env orc false a v)
 
 end PedVerif.Checker
